@@ -58,6 +58,7 @@ def canonical_rets(recv):
             out.append(("child-ref", R.RChild("ref", False)))
             out.append(("childgroup-ref", R.RChild("ref", True)))
             out.append(("res-child", R.RResChild()))
+            out.append(("res-child-plain", R.RResChild(plain=True)))
         if mut:
             out += [("mutslice", R.RMutBorrow("mwords")), ("mutone", R.RMutBorrow("mone"))]
             if recv == "mut":
